@@ -25,6 +25,8 @@ from . import schema as S
 THEOREMS = [
     "Mashu.pack_le",
     "Mashu.entrypoints_agree",
+    "Mashu.pack_eq_conf",
+    "Mashu.entrypoints_equal",
     "Mashu.unpack_eqv",
     "Mashu.unionWalk_eq",
     "Mashu.entrypoints_agree_decode",
